@@ -746,6 +746,61 @@ func registerModels(ld *loaded) {
 		nb[0] = fromTerm(px, toUpperTerm(px, t), types.Uint8)
 		return normStr(symstr{b: nb, px: px})
 	}
+	// substring search on symbolic strings (concrete lengths): non-forking ite chains
+	matchAt := func(px *pathCtx, s symstr, sep symstr, k int) *term {
+		acc := px.tt.tTrue()
+		for j := range sep.b {
+			x, _ := toTerm(px, s.b[k+j])
+			y, _ := toTerm(px, sep.b[j])
+			acc = px.tt.and(acc, px.tt.eq(x, y))
+		}
+		return acc
+	}
+	symSearch := func(name string, last bool) intrinsic {
+		return func(fr *frame, a []value) value {
+			if findPx(a[0]) == nil && findPx(a[1]) == nil {
+				return nativeTable[name](a)
+			}
+			px := fr.i.px
+			s, sep := toSymstr(px, a[0]), toSymstr(px, a[1])
+			res := px.tt.tConst(^uint64(0), 64) // -1
+			n := len(s.b) - len(sep.b)
+			if last {
+				for k := 0; k <= n; k++ {
+					res = px.tt.ite(matchAt(px, s, sep, k), px.tt.tConst(uint64(k), 64), res)
+				}
+			} else {
+				for k := n; k >= 0; k-- {
+					res = px.tt.ite(matchAt(px, s, sep, k), px.tt.tConst(uint64(k), 64), res)
+				}
+			}
+			return fromTerm(px, res, types.Int)
+		}
+	}
+	m["strings.LastIndex"] = symSearch("strings.LastIndex", true)
+	m["strings.Index"] = symSearch("strings.Index", false)
+	m["strings.HasPrefix"] = func(fr *frame, a []value) value {
+		if findPx(a[0]) == nil && findPx(a[1]) == nil {
+			return strings.HasPrefix(a[0].(string), a[1].(string))
+		}
+		px := fr.i.px
+		s, sep := toSymstr(px, a[0]), toSymstr(px, a[1])
+		if len(sep.b) > len(s.b) {
+			return false
+		}
+		return fromTerm(px, matchAt(px, s, sep, 0), types.Bool)
+	}
+	m["strings.HasSuffix"] = func(fr *frame, a []value) value {
+		if findPx(a[0]) == nil && findPx(a[1]) == nil {
+			return strings.HasSuffix(a[0].(string), a[1].(string))
+		}
+		px := fr.i.px
+		s, sep := toSymstr(px, a[0]), toSymstr(px, a[1])
+		if len(sep.b) > len(s.b) {
+			return false
+		}
+		return fromTerm(px, matchAt(px, s, sep, len(s.b)-len(sep.b)), types.Bool)
+	}
 	m["go/ast.IsExported"] = func(fr *frame, a []value) value {
 		if s, ok := a[0].(string); ok {
 			return ast.IsExported(s)
